@@ -1,4 +1,5 @@
-#!/usr/bin/env python3
+#!/venv/bin/python
+# NOTE: must run under the interpreter the checks use (/venv/bin/python): fingerprints hash ast.dump(), which differs between Python versions.
 """Record the generated layer of the unchanged tree under coq/Gen.expected/ (used only to NAME what
 changed in reports and to enlarge the correspondence budget when hand-modelled code changed)."""
 import json, shutil, sys
